@@ -5,7 +5,7 @@ import ctx
 import hir
 import pathsum
 import witness
-from pathsum import ERR, NONE, OK, SOME, show_term
+from pathsum import ERR, NONE, OK, SOME, show_term, strip_sites
 
 RERUN_ON_CONFIGS = ("dfm", "std")
 LEVEL = "translation_validation"
@@ -18,7 +18,8 @@ RULE_TEXT = ("C01-T: for every witness interface (hand-designed families + VERIF
              "Node::child compares whole names with eq_ignore_ascii_case and returns that element's node; the header "
              "parsers hand each whole mnemonic to child and leave with UndefinedHeader on None; execute picks the "
              "query/command slot by the query flag, refuses an empty slot with UndefinedHeader and otherwise calls "
-             "execute_command exactly once.")
+             "execute_command exactly once; C01-Q: the call parse returns has query = `?` consumed behind the header and "
+             "node = the node the header parser returned.")
 
 CHILD = "microscpi::tree::Node::child"
 EXECUTE = "microscpi::interface::Interface::execute"
@@ -40,6 +41,10 @@ def run(ck):
     # level would be accepted relative to a stale path)
     import c02
     c02.rule_R(ck, lib, pfx="C01")
+    # the query mark and the addressed node reach the dispatcher as parsed
+    import parsefields
+    import skeleton
+    parsefields.check(ck, lib, skeleton.Skeleton(ck, lib), "C01-Q", ("query", "node"))
     rule_S(ck)
     rule_T(ck)
     if ck.tier == "thorough":
@@ -213,7 +218,7 @@ def rule_M(ck, lib):
     # no slicing / len / starts_with on the strings anywhere in the function
     v = lib.fn_value(CHILD)
     forbidden = []
-    for xn in hir.walk(v):
+    for xn in ctx.walk_inlined(lib, v):
         c = hir.base_path(hir.callee(xn) or "")
         if xn.get("k") in ("Call", "MethodCall") and c and c != EQIC and not (xn.get("callee_kind") or "").startswith("Ctor") and "iter" not in c and "IntoIterator" not in c and "Iterator::next" not in c \
                 and c not in ("core::option::Option::map", "core::option::Option::copied", "core::option::Option::cloned"):
@@ -263,37 +268,60 @@ def rule_X(ck, lib):
     ck.floor("C01-X", "paths of execute", n, 6)
 
 
-def star_plus_mnemonic(src):
-    """src == inp[0 .. len(res) + 1] with res the text of program_mnemonic applied to the remainder of a one-byte tag on inp"""
-    if src[0] != "index" or src[2][0] != "struct" or not src[2][1].endswith("::Range"):
-        return False
-    inp = src[1]
-    f = dict(src[2][2])
-    st, en = f.get("start"), f.get("end")
-    if st != ("lit", "int", 0) or en is None or en[0] != "bin" or en[1] != "Add" or en[3] != ("lit", "int", 1):
-        return False
-    ln = en[2]
-    if not (ln[0] == "call" and ln[1].endswith("::len") and len(ln[2]) == 1):
-        return False
-    res = ln[2][0]
-    if not (res[0] == "tproj" and res[2] == 1 and res[1][0] == "payload" and res[1][2] == OK):
-        return False
-    pm = res[1][1]
-    if not (pm[0] == "call" and pm[1] == "microscpi::parser::program_mnemonic"):
-        return False
-    i1 = pm[2][0]
-    # i1 = remainder (component 0) of tag(<byte>)(inp), possibly through map_err
-    s = str(i1)
-    return i1[0] == "tproj" and i1[2] == 0 and "microscpi::parser::tag" in s and repr(inp) in repr(i1)
+def whole_mnemonic(src, x, sk, ps, star):
+    """src is the whole text of one program mnemonic taken on this path - for `star` together with the one `*` in front
+    of it: either the taken part of a program_mnemonic application itself, or a slice / split_at head of that
+    application's input whose bounds are proved (Fourier-Motzkin, from the slice-length facts of the path) to be
+    0 and len(taken) (+1 for the star, the slice then being one of the input of the tag(b'*') before it)."""
+    import fm
+    import slicelin
+    from linform import Lin
+    src = strip_sites(src)
+    pms = []
+    for (pid, inp, t, oc) in sk.apps_on_path(x, ps):
+        if pid == ("fn", "microscpi::parser::program_mnemonic"):
+            pms.append((strip_sites(t), strip_sites(inp)))
+    for (pm, i1) in pms:
+        res = ("tproj", ("payload", pm, OK, 0), 1)
+        if not star and src == res:
+            return "the taken part of program_mnemonic"
+        base = start = end = None
+        if src[0] == "index":
+            k, a, b_ = slicelin.rng_parts(src[2])
+            if k in ("Range", "RangeTo"):
+                base, start, end = src[1], a or ("lit", "int", 0), b_
+        elif src[0] == "tproj" and src[2] == 0 and src[1][0] == "call" and src[1][1].endswith("::split_at") and len(src[1][2]) == 2:
+            base, start, end = src[1][2][0], ("lit", "int", 0), src[1][2][1]
+        if base is None:
+            continue
+        if star:
+            ok_base = False
+            if i1[0] == "tproj" and i1[2] == 0 and i1[1][0] == "payload" and i1[1][2] == OK:
+                a = sk.app(i1[1][1], ps)
+                ok_base = a is not None and a[0] == ("tag", 42) and strip_sites(a[1]) == base
+        else:
+            ok_base = base == i1
+        if not ok_base:
+            continue
+        sl = slicelin.SliceLin(sk, ps, base)
+        f = sl.premises(x) + sl.cond_facts(x) + sl.slice_facts(res, x) + [fm.ge0(sl.ln(res))]
+        want = sl.ln(res) + Lin({}, 1 if star else 0)
+        if all(fm.entails(f, g) for g in fm.eq(sl.L(start), Lin()) + fm.eq(sl.L(end), want)):
+            return "input[0 .. len(mnemonic)%s] (bounds proved from the slice-length facts)" % (" + 1" if star else "")
+    return None
 
 
 # ------------------------------------------------------------------ C01-W
 def rule_W(ck, lib):
+    import skeleton
+    sk = skeleton.Skeleton(ck, lib)
     n_child = 0
     for fn, kind in (("microscpi::parser::compound_command_program_header", "compound"), ("microscpi::parser::common_command_program_header", "common")):
-        ex, ps = ctx.summarize(lib, fn, ck, closure=True)
+        f_ = sk.fns.get(fn)
+        ex, ps = (f_["exits"], f_["ps"]) if f_ else (None, None)
         if not ck.anchor("C01-W", fn, ex):
             continue
+        ck.fn(fn)
         sites = {}
         for x in ex:
             for e in x.effects:
@@ -302,19 +330,19 @@ def rule_W(ck, lib):
                     sites.setdefault(e[3], []).append((x, t))
         for site, lst in sorted(sites.items()):
             n_child += 1
-            x0, t0 = lst[0]
-            namearg = t0[2][1]
-            ok_name = False
-            desc = show_term(namearg)
-            # name = from_utf8(<mnemonic>)? where <mnemonic> is the whole taken part of program_mnemonic (compound)
-            if namearg[0] == "payload" and namearg[2] == OK and namearg[1][0] == "call" and namearg[1][1].endswith("from_utf8"):
-                src = namearg[1][2][0]
-                if kind == "compound":
-                    ok_name = (src[0] == "tproj" and src[2] == 1 and src[1][0] == "payload" and src[1][2] == OK
-                               and src[1][1][0] == "call" and src[1][1][1] == "microscpi::parser::program_mnemonic")
-                else:
-                    # `*` + mnemonic: input[0 .. len(mnemonic) + 1]
-                    ok_name = star_plus_mnemonic(src)
+            ok_name = True
+            desc = ""
+            for (x0, t0) in lst:
+                namearg = t0[2][1]
+                # name = from_utf8(<mnemonic>)? where <mnemonic> is the whole text of one program mnemonic (with its `*`)
+                why = None
+                if namearg[0] == "payload" and namearg[2] == OK and namearg[1][0] == "call" and namearg[1][1].endswith("from_utf8"):
+                    why = whole_mnemonic(namearg[1][2][0], x0, sk, ps, kind == "common")
+                if why is None:
+                    ok_name = False
+                    desc = show_term(namearg)
+                    break
+                desc = why
             ck.judge(ok_name, "C01-W", "%s:child@%s:whole-mnemonic" % (kind, n_child), "child() receives the whole mnemonic text: %s" % desc,
                      "child() receives `%s`, not the whole text of one program mnemonic" % desc, site)
             # None -> leaves with UndefinedHeader
@@ -324,8 +352,13 @@ def rule_W(ck, lib):
                 d = ps.decided(pathsum.St(x.conds), t, SOME)
                 if d is False:
                     seen_none = True
-                    want = ("ctor", ERR, (("from", ("ctor", UNDEF, ()), "microscpi::error::Error", "microscpi::parser::ParseError"),))
-                    if not (x.kind in ("return", "err") and x.value == want):
+                    # Err(UndefinedHeader) as the header parsers report it: ParseError::FatalError(UndefinedHeader), written
+                    # directly or reached through the library's own From<Error> impl (evaluated, not assumed)
+                    want = [("ctor", "microscpi::parser::ParseError::FatalError", (("ctor", UNDEF, ()),))]
+                    got = None
+                    if x.kind in ("return", "err") and x.value is not None and x.value[0] == "ctor" and x.value[1] == ERR:
+                        got = ctx.canon_conv(lib, x.value[2][0], "microscpi::parser::ParseError")
+                    if got != want:
                         okn = False
                 elif d is None:
                     okn = False
